@@ -119,13 +119,26 @@ def _main_time_loop():
 
     tree = ast.parse((Path(ladim.__file__).parent / "main.py").read_text())
     fn = [n for n in tree.body if isinstance(n, ast.FunctionDef) and n.name == "main"][0]
-    loops = [k for k, st in enumerate(fn.body) if isinstance(st, (ast.For, ast.While)) and "model.update" in ast.unparse(st)]
+
+    def flat(stmts):  # statements of main in execution order, looking into try: and with: blocks (not into handlers)
+        out = []
+        for st in stmts:
+            if isinstance(st, ast.Try):
+                out += flat(st.body)
+            elif isinstance(st, ast.With):
+                out += flat(st.body)
+            else:
+                out.append(st)
+        return out
+
+    body = flat(fn.body)
+    loops = [k for k, st in enumerate(body) if isinstance(st, (ast.For, ast.While)) and "model.update" in ast.unparse(st)]
     if len(loops) != 1:
         raise RuntimeError("cannot find the time loop of ladim.main.main")
     # the statements of main between the construction of the model and the loop belong to the loop (loop variables)
-    built = [k for k, st in enumerate(fn.body[: loops[0]]) if isinstance(st, ast.Assign) and "Model(" in ast.unparse(st.value) and ast.unparse(st.targets[0]) == "model"]
+    built = [k for k, st in enumerate(body[: loops[0]]) if isinstance(st, ast.Assign) and "Model(" in ast.unparse(st.value) and ast.unparse(st.targets[0]) == "model"]
     first = built[-1] + 1 if built else loops[0]
-    stmts = fn.body[first : loops[0] + 1]
+    stmts = body[first : loops[0] + 1]
 
     # every preparatory statement is tried on its own: one that needs a local of main the harness does not have
     # (the configuration file name, a wall-clock stamp) is skipped, the ones that define loop variables run
@@ -139,7 +152,7 @@ def _main_time_loop():
     ns0 = dict(vars(real_main))
     # locals of main defined before the model is built (its logger, a wall-clock stamp): plain assignments that can be
     # evaluated without main's arguments are made available to the loop
-    for st in fn.body[: built[-1] if built else 0]:
+    for st in body[: built[-1] if built else 0]:
         if isinstance(st, ast.Assign) and all(isinstance(t, ast.Name) for t in st.targets):
             try:
                 exec(compile(ast.Module([st], []), "<main prelude>", "exec"), ns0)
